@@ -100,6 +100,10 @@ def accumulators(F, fid):
             continue
         if not (init & ret_o):
             continue
+        # a SUM accumulator: at least one in-loop update goes through checked / plain addition (a "best so far" variable that is
+        # legitimately overwritten inside a loop is not judged)
+        if not any(any(x.startswith("call:") and x.split("@")[0].rsplit("::", 1)[-1] in ("checked_add", "checked_sub", "checked_mul", "add", "sub") for x in o) for bi, o, rv in defs_in):
+            continue
         out.append((name, local, defs_in, init))
     return out
 
